@@ -38,14 +38,18 @@ structure Obs where
 
 def obsOf : Sexp → Option Obs
   | .list [.atom "page", .list [.atom "title", .str t], .list [.atom "endpoint", .str e], .list [.atom "sub", s],
-           .list (.atom "headers" :: hs), .list (.atom "ws" :: ws), .list [.atom "closers", .atom c],
-           .list [.atom "comments", .atom m]] => do
+           .list (.atom "headers" :: hs), .list (.atom "ws" :: ws), .list (.atom "members" :: ms),
+           .list [.atom "closers", .atom c], .list [.atom "comments", .atom m]] => do
     let s ← optStr s
     let hs ← pairsOf hs
     let ws ← pairsOf ws
     let c ← c.toNat?
     let m ← m.toNat?
-    some { page := { title := t, endpoint := e, subscription := s, headers := hs, wsParams := ws }, closers := c, comments := m }
+    let ms ← ms.mapM (fun x => match x with
+      | .list [.atom n, .atom b] => some (n, b == "true")
+      | _ => none)
+    some { page := { title := t, endpoint := e, subscription := s, headers := hs, wsParams := ws, members := ms },
+           closers := c, comments := m }
   | _ => none
 
 def ltStr : List Char → List Char → Bool
@@ -73,6 +77,7 @@ def pageSexp (p : Page) : Sexp :=
   .list [.atom "page", .list [.atom "title", .str p.title], .list [.atom "endpoint", .str p.endpoint],
     .list [.atom "sub", match p.subscription with | none => .atom "none" | some s => .str s],
     .list (.atom "headers" :: ents p.headers), .list (.atom "ws" :: ents p.wsParams),
+    .list (.atom "members" :: p.members.map (fun m => Sexp.list [.atom m.1, ofBool m.2])),
     .list [.atom "closers", ofNat 2], .list [.atom "comments", ofNat 0]]
 
 /-- the property, evaluated on what the real page contains: every literal evaluates to the
@@ -97,14 +102,17 @@ def specOk (c : Config) (o : Obs) : Bool :=
     | some b, some x => bodyOk b x
     | _, _ => false) &&
   mapOk o.page.headers c.headers && mapOk o.page.wsParams c.wsParams &&
+  wellSeparated o.page.members && o.page.members.map (·.1) == (members {} c).map (·.1) &&
   o.closers == 2 && o.comments == 0
 
-def ids : List String := ["C34-entities-in-script", "C34-backslash-unescaped", "C34-controls-raw"]
+def ids : List String :=
+  ["C34-entities-in-script", "C34-backslash-unescaped", "C34-controls-raw", "C34-missing-comma"]
 
 def defectsOf (known : List String) : Defects :=
   { entitiesInScript := known.contains "C34-entities-in-script"
     backslashRaw := known.contains "C34-backslash-unescaped"
-    controlsRaw := known.contains "C34-controls-raw" }
+    controlsRaw := known.contains "C34-controls-raw"
+    missingComma := known.contains "C34-missing-comma" }
 
 def judge (known : List String) (case impl : String) : JudgeOut :=
   match (parse case).bind configOf with
